@@ -32,7 +32,7 @@ def _run(args):
 
 
 def run(chk):
-    r = chk.tlc("CouplingsMC", "CouplingsMC_thorough.cfg" if chk.thorough() else "CouplingsMC.cfg", label="heap model, all histories")
+    r = chk.tlc("CouplingsMC", "CouplingsMC_thorough.cfg" if chk.thorough() else "CouplingsMC.cfg", coverage=True, label="heap model, all histories")
     if r.violated:
         raise MachineryError(f"Couplings design violated {r.violated}: {r.counterexample()[:2500]}")
     for sw in ("noref", "nohit", "nostore"):
